@@ -608,6 +608,43 @@ func (r *runner) apply(ev string) bool {
 				return false
 			}
 		}
+	case "hot":
+		// An application dies in the middle of a rollback-journal transaction on the primary (pages - among them the
+		// database's last one - already overwritten in the file after a cache spill, a valid journal next to it); then
+		// LiteFS recovers, as it does on a role change. Nothing was committed: everything is as before.
+		if p := r.c.Primary(); p != nil {
+			cur, ok := r.current(p, f[1])
+			if !ok || cur.N() < 2 || isWAL(cur) {
+				return true
+			}
+			conn := pager.NewConn(p.M, f[1], r.nextOwner(), cur.PageSize)
+			conn.Det = true
+			func() {
+				defer func() {
+					if x := recover(); x != nil {
+						if _, ok := x.(pager.Abort); !ok {
+							panic(x)
+						}
+					}
+				}()
+				writes := 0
+				conn.Before = func(step int, desc string) {
+					if strings.HasPrefix(desc, "db fsync") {
+						panic(pager.Abort{Step: step})
+					}
+					if strings.HasPrefix(desc, "db write page") {
+						writes++
+					}
+				}
+				conn.RunRTx(pager.RTx{Mods: []uint32{2, cur.N()}, NewSize: cur.N() + 2, SpillAfter: []int{2}, Final: "DELETE", Outcome: "commit"}, cur)
+			}()
+			conn.Before = nil
+			conn.Close()
+			if err := p.Store.Recover(context.Background()); err != nil {
+				r.viol("C04/recover-error", "Store.Recover on primary with a dead application's hot journal: %v", err)
+				return false
+			}
+		}
 	case "towal":
 		if p := r.c.Primary(); p != nil {
 			cur, ok := r.current(p, f[1])
@@ -1075,6 +1112,9 @@ func (r *runner) enabled() []string {
 					out = append(out, "fwd:"+db+":"+k)
 				}
 			}
+		}
+		if has("hot") && db == "a" && !isWAL(cur) && cur.N() >= 2 {
+			out = append(out, "hot:"+db)
 		}
 		if has("drop") {
 			out = append(out, "drop:"+db)
